@@ -167,7 +167,7 @@ def kani_cmd(target_dir, harness=None, extra=()):
 
 
 def ensure_kani_home():
-    if not os.path.exists(os.path.join(KANI_HOME, "kani-0.68.0", "bin", "cbmc")):
+    if not all(os.path.exists(os.path.join(KANI_HOME, "kani-0.68.0", "bin", b)) for b in ("cbmc", "goto-cc", "kani-compiler")):
         subprocess.run([os.path.join(VERIF, "lib", "kani_home.sh"), VERIF], check=True)
 
 
@@ -276,6 +276,11 @@ class Runner:
         """Private copies of the base target dir: concurrent `cargo kani` runs with different
         harness filters overwrite each other's metadata in a shared one."""
         self.dirs = []
+        # worker dirs left behind by runs that were killed
+        for d in os.listdir(TARGET):
+            m = re.match(r"kani-w(\d+)-\d+$", d)
+            if m and not os.path.exists(f"/proc/{m.group(1)}"):
+                shutil.rmtree(os.path.join(TARGET, d), ignore_errors=True)
         for i in range(max(1, n)):
             d = os.path.join(TARGET, f"kani-w{os.getpid()}-{i}")
             shutil.rmtree(d, ignore_errors=True)
@@ -293,6 +298,8 @@ class Runner:
         cmd = kani_cmd(tdir, h, extra)
         lf = os.path.join(self.logdir, f"{spec['id']}{suffix}.log")
         env = dict(ENV)
+        # harness metadata "lib":"verif": link lib/kani_lib/kani_lib.c instead of Kani's C model library
+        env["VERIF_KANI_LIB"] = "verif" if spec.get("lib") == "verif" else "stock"
         env["VERIF_RELAYOUT"] = "1" if spec.get("relayout", True) and os.environ.get("VERIF_RELAYOUT", "1") != "0" else "0"
         st, out, secs, peak = run_capped(cmd, KANI_CRATE, cap or spec["cap"], self.mem_gb, lf, env=env)
         r = parse_kani(out)
